@@ -63,8 +63,19 @@ def gen_template(rng, nl="\n"):
         r = rng.random()
         if b.pending_comment is not None:
             r = 0.36 + r * 0.58            # a construct (not text / comment / known-finding shapes) follows an attached comment
+            if rng.random() < 0.2:
+                r = 2.0                    # ... or a construct without any message, which uses the comment up
         b_pending_before = b.pending_comment
-        if r < 0.10:
+        if r >= 2.0 or (b_pending_before is None and rng.random() < 0.08):
+            # a construct with no message, then (often) an ordinary comment directly before the next message: the translator
+            # comment written before the message-less construct must not travel, the ordinary comment is never a translator comment
+            b.add(rng.choice(["<h1>${title}</h1>", "% for item in items:\n  row\n% endfor", '<%%def name="q%d()">x</%%def>' % b.lineno, "% if flag:\n  y\n% endif"]))
+            b.pending_comment = None
+            if rng.random() < 0.7:
+                b.add(rng.choice(["## layout: two columns from here on", "## (ordinary remark, not for translators)", "##"]))
+                m = b.msg(); fn, c = b.call(m)
+                b.expect(b.lineno, fn, m); b.add(rng.choice(["<p>${@}</p>", "% if @:\n  z\n% endif", "<% w = @ %>"]).replace("@", c))
+        elif r < 0.10:
             b.add("plain text _('decoy text') here"); b.pending_comment = None if b_pending_before is None else b_pending_before
         elif r < 0.16:
             b.add("## just a comment _('decoy comment')")
@@ -92,7 +103,10 @@ def gen_template(rng, nl="\n"):
         elif r < 0.56:
             m = b.msg(); fn, c = b.call(m)
             cl = b.lineno
-            b.add("${ (1,")
+            if rng.random() < 0.5:
+                b.add("${ (1,")
+            else:
+                b.add("${" + rng.choice(["", " ", "  \t"])); b.add("  (1,")
             b.expect(b.lineno, fn, m, construct_line=cl); b.add("   %s," % c); b.add("  2)[1] }")
         elif r < 0.61:
             m1, m2 = b.msg(), b.msg()
@@ -110,10 +124,10 @@ def gen_template(rng, nl="\n"):
             ms = [b.msg() for _ in range(rng.randint(1, 3))]
             cl = b.lineno
             pend = b.pending_comment
-            b.add("<%")
+            b.add("<%" + rng.choice(["", "", " ", "\t", "  "]))
             for m in ms:
                 if rng.random() < 0.3:
-                    b.add("")
+                    b.add(rng.choice(["", "", "    ", "\t"]))
                 fn, c = b.call(m)
                 b.pending_comment = pend          # every message of the block carries the comment
                 b.expect(b.lineno, fn, m, construct_line=cl); b.add("    v = " + c)
@@ -285,7 +299,7 @@ def run(ctx):
                 else:
                     same = [g for g in got if g[1:3] == w[1:3]]
                     tag = "c20.babel.missing"
-                    if len(same) == 1 and same[0][:3] == w[:3] and len(same[0][3]) > len(w[3]) and same[0][3][len(same[0][3]) - len(w[3]):] == w[3] \
+                    if len(same) == 1 and same[0][:3] == w[:3] and len(w[3]) >= 1 and len(same[0][3]) > len(w[3]) and same[0][3][len(same[0][3]) - len(w[3]):] == w[3] \
                             and all(c_.startswith(TAG) or True for c_ in same[0][3]):
                         tag = "c20.comments.stale"     # earlier, non-adjacent comments are carried along
                     ctx.violation(dict(case, expected=repr(w), reported_for_that_message=repr(same)),
@@ -306,7 +320,7 @@ def run(ctx):
                 if gotset:
                     ctx.violation(dict(case, unexpected=repr(gotset)), "the extractor reported something that was not planted (decoy text, comment, <%doc> or <%text>)", tags=["c20.babel.extra"])
             # Lingua (utf-8 text only)
-            if i % 3 == 0:
+            if i % 2 == 0:
                 try:
                     lg = run_lingua(src, workdir)
                     lwant = sorted((l, (m if isinstance(m, str) else m[0]), (None if isinstance(m, str) else m[1])) for l, f, m, c, known in b.expected if not known)
@@ -349,7 +363,7 @@ def run(ctx):
         rule="generated templates with unique messages planted (by _ / gettext / ngettext) in expressions (single and multi-line), control "
              "lines (incl. elif), <% %> and <%! %> blocks at varying lines, def / call / page signatures and nested bodies, with decoys in text, "
              "## comments, <%doc> and <%text>, translator comments immediately before / one line too early / untagged, LF and CRLF, utf-8 and "
-             "cp1251 sources; Babel on every template, Lingua on every third. distinct by source",
+             "cp1251 sources; Babel on every template, Lingua on every second. distinct by source",
         assumptions=["py_extract_oracle: the Python message extractor (Babel's extract_python / Lingua's python extractor) reports each call at its line within the code it is given",
                      "the parse tree handed to extract_nodes is the real lexer's (C01/C11 cover it)"],
     )
